@@ -28,7 +28,11 @@ LEVEL_TEXT = ('The complete product of the text alphabet (ASCII, Latin-1, CJK, '
               'every one of the 1 112 064 Unicode scalar values alone and '
               'inside two carriers, checking the output alphabet and '
               'idempotence.')
-LEVEL_NOTE = ('Texts are the listed alphabet (plus all single code points for '
+LEVEL_NOTE = ('Besides the nine spellings, every text codec the running Python ships is used '
+              'as source and as target (with UTF-8 / Latin-1 on the other side), and payloads '
+              'of 64 KiB / 128 KiB / 1 MiB +-1 ending in complete and incomplete multi-byte '
+              'sequences are transcoded. '
+              'Texts are the listed alphabet (plus all single code points for '
               'to_slug), not arbitrary strings. The locale-dependent default '
               'for `incoming` is driven through a stand-in sys.stdin with '
               'encoding ascii / utf-8 / None.')
@@ -52,6 +56,49 @@ def ref_decode(b, incoming, errors):
             return ('ret', b.decode('utf-8', errors))
         except UnicodeDecodeError:
             return ('UnicodeDecodeError',)
+    except UnicodeEncodeError:
+        return ('UnicodeEncodeError',)
+    except TypeError:
+        return ('TypeError',)
+    except Exception as e:              # e.g. the plain UnicodeError of idna / punycode
+        return ('raises', type(e).__name__)
+
+
+def ref_encode(text, encoding, errors):
+    try:
+        return ('ret', text.encode(encoding, errors))
+    except UnicodeEncodeError:
+        return ('UnicodeEncodeError',)
+    except UnicodeDecodeError:
+        return ('UnicodeDecodeError',)
+    except TypeError:
+        return ('TypeError',)
+    except Exception as e:
+        return ('raises', type(e).__name__)
+
+
+def all_text_codecs():
+    """Every text codec this Python ships (bytes <-> str), by canonical name: the
+    stateful 7-bit ones (iso2022_*, hz, utf_7), the EBCDIC pages, the BOM-writing
+    ones, the escape codecs, idna, punycode ..."""
+    import codecs
+    import encodings.aliases
+    names = set(encodings.aliases.aliases.values()) | {'utf_8_sig', 'idna', 'punycode',
+                                                        'raw_unicode_escape', 'unicode_escape'}
+    out = []
+    for n in sorted(names):
+        try:
+            info = codecs.lookup(n)
+            if not getattr(info, '_is_text_encoding', True):
+                continue
+            if not isinstance('a'.encode(n), bytes) or not isinstance(b'a'.decode(n), str):
+                continue
+        except Exception:
+            continue
+        if n in ('mbcs', 'oem'):
+            continue
+        out.append(n)
+    return out
 
 
 def call(fn, *a, **kw):
@@ -82,17 +129,14 @@ def _text_case(vals, acc):
         acc.fail('safe_decode-str-not-unchanged', {'text': text, 'got': repr(r)}, p)
         return
     # safe_encode(str) == str.encode
-    try:
-        want = ('ret', text.encode(enc, errors))
-    except UnicodeEncodeError:
-        want = ('UnicodeEncodeError',)
+    want = ref_encode(text, enc, errors)
     got = call(encodeutils.safe_encode, text, encoding=enc, errors=errors)
     got2 = call(encodeutils.safe_encode, text, 'ascii', enc, errors)      # incoming is irrelevant for str
     if not same(got, want) or not same(got2, want):
         acc.fail('safe_encode-str', {'text': text, 'encoding': enc, 'errors': errors,
                                      'got': repr(got), 'want': repr(want)}, p)
         return
-    if want[0] == 'ret' and errors == 'strict':
+    if want[0] == 'ret' and errors == 'strict' and ref_decode(want[1], enc, 'strict') == ('ret', text):
         back = call(encodeutils.safe_decode, want[1], enc)
         if back != ('ret', text):
             acc.fail('round-trip', {'text': text, 'encoding': enc, 'got': repr(back)}, p)
@@ -108,39 +152,48 @@ def _bytes_case(vals, acc):
     kind, payload = src
     if kind == 'raw':
         b = payload
+    elif kind == 'big':
+        length, tail = payload
+        b = b'a' * (length - len(tail)) + tail
     else:
         try:
             b = payload.encode(incoming if kind == 'enc-in' else 'utf-8')
-        except UnicodeEncodeError:
+        except Exception:
             return
-    acc.nontrivial(repr((b, incoming, encoding, errors)))
-    p = {'bytes': [b.hex(), incoming, encoding, errors]}
+    acc.nontrivial(repr((b if len(b) < 64 else src, incoming, encoding, errors)))
+    p = {'bytes': [b.hex(), incoming, encoding, errors]} if len(b) < 4096 else \
+        {'big': [list(src[1][:1]) + [src[1][1].hex()], incoming, encoding, errors]}
     # safe_decode(bytes)
     want_d = ref_decode(b, incoming, errors)
     got_d = call(encodeutils.safe_decode, b, incoming, errors)
     if not same(got_d, want_d):
-        acc.fail('safe_decode-bytes', {'bytes': b.hex(), 'incoming': incoming, 'errors': errors,
-                                       'got': repr(got_d), 'want': repr(want_d)}, p)
+        acc.fail('safe_decode-bytes', {'bytes': b.hex()[:200], 'length': len(b), 'incoming': incoming,
+                                       'errors': errors,
+                                       'got': repr(got_d)[:200], 'want': repr(want_d)[:200]}, p)
         return
     # safe_encode(bytes)
     got = call(encodeutils.safe_encode, b, incoming, encoding, errors)
     if not b or incoming.lower() == encoding.lower():
         if got[0] != 'ret' or got[1] is not b:
             acc.fail('safe_encode-bytes-not-untouched',
-                     {'bytes': b.hex(), 'incoming': incoming, 'encoding': encoding, 'errors': errors,
-                      'got': repr(got)}, p)
+                     {'bytes': b.hex()[:200], 'length': len(b), 'incoming': incoming,
+                      'encoding': encoding, 'errors': errors, 'got': repr(got)[:200]}, p)
         return
     if want_d[0] != 'ret':
         want = want_d
     else:
-        try:
-            want = ('ret', want_d[1].encode(encoding, errors))
-        except UnicodeEncodeError:
-            want = ('UnicodeEncodeError',)
+        want = ref_encode(want_d[1], encoding, errors)
     if not same(got, want):
-        acc.fail('safe_encode-transcode', {'bytes': b.hex(), 'incoming': incoming,
+        d = 0
+        if got[0] == 'ret' and want[0] == 'ret':
+            while d < min(len(got[1]), len(want[1])) and got[1][d] == want[1][d]:
+                d += 1
+        acc.fail('safe_encode-transcode', {'bytes': b.hex()[:200], 'length': len(b), 'incoming': incoming,
                                            'encoding': encoding, 'errors': errors,
-                                           'got': repr(got), 'want': repr(want)}, p)
+                                           'first_difference_at': d,
+                                           'got': repr(got[1][max(d - 8, 0):d + 24] if got[0] == 'ret' else got),
+                                           'want': repr(want[1][max(d - 8, 0):d + 24] if want[0] == 'ret' else want)},
+                 p)
         return
     t = call(encodeutils.to_utf8, b)
     if t[0] != 'ret' or t[1] is not b:
@@ -173,7 +226,7 @@ def _slug_range(vals, acc):
         if 0xD800 <= cp <= 0xDFFF:
             continue
         ch = chr(cp)
-        for text in (ch, 'Ab ' + ch + ' cD', ch + ch + '-' + ch):
+        for text in (ch, 'Ab ' + ch + ' cD', ch + ch + '-' + ch, 'a' + ch + 'b'):
             acc.counters['slug_inputs'] += 1
             pr = slug_problem(strutils, text)
             if pr:
@@ -241,6 +294,29 @@ def run(ctx):
     srcs = [('raw', b) for b in RAW_BYTES] + [('enc-in', t) for t in TEXTS] + \
         [('enc-utf8', t) for t in TEXTS[2:6]]
     E.run(rep, 'bytes', [srcs, ENCODINGS, ENCODINGS, ERRORS], _bytes_case)
+    # every text codec of this Python, as source and as target of a transcoding with UTF-8
+    codecs_all = all_text_codecs()
+    E.run(rep, 'text-all-codecs', [TEXTS[2:9], codecs_all, ERRORS], _text_case)
+    srcs2 = [('raw', b) for b in RAW_BYTES[3:8]] + [('enc-in', t) for t in TEXTS[2:8]]
+    E.run(rep, 'bytes-all-codecs-in', [srcs2, codecs_all, ['utf-8', 'latin-1'], ERRORS], _bytes_case)
+    E.run(rep, 'bytes-all-codecs-out', [[('enc-utf8', t) for t in TEXTS[2:8]], ['utf-8'], codecs_all,
+                                        ERRORS], _bytes_case)
+    # payloads that exactly fill / just miss a power-of-two buffer, ending in a complete or
+    # an incomplete multi-byte sequence (plus whatever new size constants the code has)
+    from vlib import lits
+    sizes = {65535, 65536, 65537, 131071, 131072, 131073, 1048576}
+    for v in lits.new('oslo_utils/encodeutils.py')['ints']:
+        if 2 <= v <= 1 << 22:
+            sizes |= {v - 1, v, v + 1, 2 * v - 1, 2 * v, 2 * v + 1, 3 * v}
+    tails = [b'', 'é'.encode('utf-8'), '€'.encode('utf-8')[:2], b'\xc3', '😀'.encode('utf-8')[:3],
+             b'\xd8\x3d', b'\x82', b'\x1b$B']
+    big = [('big', (n, t)) for n in sorted(sizes) for t in tails]
+    pairs = [('utf-8', 'latin-1'), ('utf-8', 'utf-16'), ('utf-16-le', 'utf-8'), ('shift_jis', 'utf-8'),
+             ('utf-8', 'iso2022_jp'), ('latin-1', 'utf-8'), ('utf-8', 'utf-8')]
+    E.run(rep, 'bytes-big', [big, pairs, ERRORS],
+          lambda vals, acc: _bytes_case((vals[0], vals[1][0], vals[1][1], vals[2]), acc))
+    rep.notes['all_codecs'] = codecs_all
+    rep.notes['big_sizes'] = sorted(sizes)
     # type contract
     from oslo_utils import encodeutils, strutils
     for fn in (encodeutils.safe_decode, encodeutils.safe_encode, encodeutils.to_utf8,
@@ -286,6 +362,9 @@ def replay(payload):
     elif 'bytes' in payload:
         h, i, e, errors = payload['bytes']
         _bytes_case((('raw', bytes.fromhex(h)), i, e, errors), acc)
+    elif 'big' in payload:
+        (n, t), i, e, errors = payload['big']
+        _bytes_case((('big', (n, bytes.fromhex(t))), i, e, errors), acc)
     elif 'slug' in payload:
         pr = slug_problem(strutils, payload['slug'])
         return {'violates': bool(pr), 'problem': pr}
